@@ -24,6 +24,11 @@ Lemma combine_map_fst_repeat {A B} (l : list A) (y : B) n :
   length l = n -> map (fun p : A * B => fst p) (combine l (repeat y n)) = l.
 Proof. revert n; induction l as [|x l IH]; intros [|n] H; cbn [length] in H; try discriminate; cbn [repeat combine map fst]; [reflexivity|]. f_equal. apply IH. lia. Qed.
 
+Lemma combine_pick_none (l : row) n :
+  length l = n ->
+  map (fun p : cell * option cell => match snd p with None => fst p | Some c => c end) (combine l (repeat None n)) = l.
+Proof. revert n; induction l as [|x l IH]; intros [|n] H; cbn [length] in H; try discriminate; cbn [repeat combine map fst snd]; [reflexivity|]. f_equal. apply IH. lia. Qed.
+
 Lemma apply_delta_row_expand items : forall o,
   zlen (expand items) <= zlen o -> apply_delta_row o items = pickopt o (expand items).
 Proof.
@@ -31,12 +36,14 @@ Proof.
   - unfold pickopt. destruct o; reflexivity.
   - fold (expand items). cbn [expand flat_map expand_item] in Hl. fold (expand items) in Hl. rewrite zlen_app, zlen_repeatz in Hl.
     pose proof (zlen_nonneg (expand items)).
+    destruct (Z_le_gt_dec n 0) as [Hn|Hn].
+    { rewrite takez_le0, dropz_le0 by lia. unfold repeatz. replace (Z.to_nat n) with O by lia. cbn [repeat app]. apply IH. lia. }
     rewrite IH by (rewrite zlen_dropz by lia; lia).
     unfold pickopt. rewrite <- (takez_dropz n o) at 3.
     rewrite combine_app' by (unfold takez, repeatz; rewrite firstn_length, repeat_length; unfold zlen in *; lia).
     rewrite map_app. f_equal. unfold repeatz.
     assert (length (takez n o) = Z.to_nat n) as Hlen by (unfold takez; rewrite firstn_length; unfold zlen in *; lia).
-    rewrite <- (combine_map_fst_repeat (takez n o) (@None cell) (Z.to_nat n) Hlen) at 1. apply map_ext. intros [x y]. reflexivity.
+    symmetry. apply combine_pick_none. exact Hlen.
   - fold (expand items). cbn [expand flat_map expand_item app] in Hl. fold (expand items) in Hl. rewrite zlen_cons in Hl.
     pose proof (zlen_nonneg (expand items)).
     destruct o as [|x o]; [rewrite zlen_nil in Hl; lia|]. rewrite zlen_cons in Hl.
@@ -61,8 +68,7 @@ Definition rowagree (R : row) (x : Z) (t : row) : Prop :=
 Lemma pickrow_agree R t : zlen R = zlen t -> rowagree R 0 t -> pickrow R t = map untag t.
 Proof.
   unfold rowagree. rewrite dropz_le0 by lia. unfold pickrow. revert t; induction R as [|x R IH]; intros [|c t] Hl A; try reflexivity.
-  - rewrite zlen_nil, zlen_cons in Hl. pose proof (zlen_nonneg t). lia.
-  - rewrite zlen_nil, zlen_cons in Hl. pose proof (zlen_nonneg R). lia.
+  - unfold zlen in Hl. cbn [length] in Hl. lia.
   - cbn [combine map fst snd] in *. inversion A; subst. cbn [fst snd] in *. rewrite !zlen_cons in Hl. rewrite IH by (try assumption; lia).
     f_equal. destruct (is_skip c) eqn:E; [auto|reflexivity].
 Qed.
@@ -70,10 +76,10 @@ Qed.
 Lemma rowagree_app R x t1 t2 : 0 <= x -> rowagree R x t1 -> rowagree R (x + zlen t1) t2 -> rowagree R x (t1 ++ t2).
 Proof.
   unfold rowagree. intros Hx A1 A2. pose proof (zlen_nonneg t1).
-  rewrite <- dropz_dropz in A2 by lia. rewrite (Z.add_comm x) in A2 || idtac.
-  revert A1 A2. rewrite <- (dropz_dropz (zlen t1) x) by lia. generalize (dropz x R) as L. clear. intros L. revert L.
+  replace (x + zlen t1) with (zlen t1 + x) in A2 by lia. rewrite <- dropz_dropz in A2 by lia.
+  revert A1 A2. generalize (dropz x R) as L. clear. intros L. revert L.
   induction t1 as [|c t1 IH]; intros L A1 A2.
-  - cbn [app]. rewrite zlen_nil, dropz_le0 in A2 by lia. exact A2.
+  - cbn [app]. rewrite dropz_le0 in A2 by (unfold zlen; cbn [length]; lia). exact A2.
   - destruct L as [|y L]; [constructor|]. cbn [app combine] in *. inversion A1; subst. constructor; [assumption|].
     apply IH; [assumption|]. rewrite zlen_cons in A2. pose proof (zlen_nonneg t1).
     replace (dropz (1 + zlen t1) (y :: L)) with (dropz (zlen t1) L) in A2; [exact A2|].
@@ -105,13 +111,13 @@ Proof.
   intros g fb F. remember (s1 ++ Busy a :: s2) as sl eqn:Esl. revert s1 Esl.
   induction F as [|w sl g fb Hw Hg _ IH|a0 sl g fb Ha _ IH|a0 sl fb F' IH]; intros s1 Esl.
   - destruct s1; discriminate.
-  - destruct s1 as [|s s1]; [discriminate|]. injection Esl as -> Esl. destruct (IH s1 Esl) as (f1 & f2 & E & Hbw & F2).
+  - destruct s1 as [|s s1]; [discriminate|]. injection Esl as <- Esl. destruct (IH s1 Esl) as (f1 & f2 & E & Hbw & F2).
     exists f1, f2. split; [assumption|]. split; [|assumption]. cbn [slots_width fold_right slot_width]. fold (slots_width s1). lia.
   - destruct (IH s1 Esl) as (f1 & f2 & E & Hbw & F2). exists ((true, a0) :: f1), f2. split; [now rewrite E|]. split; [|assumption].
     cbn [body_of map snd body_width fold_right]. fold (body_of f1). fold (body_width (body_of f1)). lia.
   - destruct s1 as [|s s1].
     + injection Esl as -> ->. exists [], fb. split; [reflexivity|]. split; [reflexivity|assumption].
-    + injection Esl as -> Esl. destruct (IH s1 Esl) as (f1 & f2 & E & Hbw & F2). exists ((false, a0) :: f1), f2.
+    + injection Esl as <- Esl. destruct (IH s1 Esl) as (f1 & f2 & E & Hbw & F2). exists ((false, a0) :: f1), f2.
       split; [now rewrite E|]. split; [|assumption].
       cbn [body_of map snd body_width fold_right slots_width slot_width]. fold (body_of f1). fold (body_width (body_of f1)). fold (slots_width s1). lia.
 Qed.
@@ -125,11 +131,11 @@ Proof.
   - destruct f1; discriminate.
   - destruct (IH f1 Efb) as (s1 & s2 & E & Hbw). exists (Free w :: s1), s2. split; [now rewrite E|].
     cbn [slots_width fold_right slot_width]. fold (slots_width s1). lia.
-  - destruct f1 as [|x f1]; [discriminate|]. injection Efb as -> Efb. destruct (IH f1 Efb) as (s1 & s2 & E & Hbw).
+  - destruct f1 as [|x f1]; [discriminate|]. injection Efb as <- Efb. destruct (IH f1 Efb) as (s1 & s2 & E & Hbw).
     exists s1, s2. split; [assumption|]. cbn [body_of map snd body_width fold_right]. fold (body_of f1). fold (body_width (body_of f1)). lia.
   - destruct f1 as [|x f1].
     + injection Efb as -> ->. exists [], sl. split; [reflexivity|reflexivity].
-    + injection Efb as -> Efb. destruct (IH f1 Efb) as (s1 & s2 & E & Hbw). exists (Busy a0 :: s1), s2. split; [now rewrite E|].
+    + injection Efb as <- Efb. destruct (IH f1 Efb) as (s1 & s2 & E & Hbw). exists (Busy a0 :: s1), s2. split; [now rewrite E|].
       cbn [body_of map snd body_width fold_right slots_width slot_width]. fold (body_of f1). fold (body_width (body_of f1)). fold (slots_width s1). lia.
 Qed.
 
@@ -156,4 +162,198 @@ Proof.
     cbn [mk_fresh map]. f_equal. apply IH; [assumption|lia].
   - change (fresh_of ((false, a) :: fb)) with (fresh_of fb) in *. cbn [body_of map snd body_width fold_right] in E.
     fold (body_of fb) in E. fold (body_width (body_of fb)) in E. lia.
+Qed.
+
+(* ------------------------------------------------------------------ rows of a band *)
+Definition getrow (O : grid) (i : Z) : row := match nthz O i with Some R => R | None => [] end.
+
+Lemma nthz_arows body : forall m k0 k, 0 <= k < Z.of_nat m -> nthz (arows body k0 m) k = Some (arow body (k0 + k)).
+Proof.
+  induction m as [|m IH]; intros k0 k Hk; [lia|]. cbn [arows]. destruct (Z.eq_dec k 0) as [->|Hne].
+  - unfold nthz. replace (0 <? 0) with false by lia. cbn. now rewrite Z.add_0_r.
+  - rewrite nthz_nth_error by lia. replace (Z.to_nat k) with (S (Z.to_nat (k - 1))) by lia. cbn [nth_error].
+    rewrite <- nthz_nth_error by lia. rewrite IH by lia. do 2 f_equal. lia.
+Qed.
+
+Lemma nthz_app_l {A} (a b : list A) k : 0 <= k < zlen a -> nthz (a ++ b) k = nthz a k.
+Proof. intros. rewrite !nthz_nth_error by lia. apply nth_error_app1. unfold zlen in *. lia. Qed.
+Lemma nthz_app_r {A} (a b : list A) k : zlen a <= k -> nthz (a ++ b) k = nthz b (k - zlen a).
+Proof.
+  intros. pose proof (zlen_nonneg a). rewrite !nthz_nth_error by lia. rewrite nth_error_app2 by (unfold zlen in *; lia).
+  f_equal. unfold zlen in *. lia.
+Qed.
+
+(* the piece of a band row that belongs to one entry of the body *)
+Lemma band_piece b1 a b2 k :
+  0 <= k -> Forall acv_ok (b1 ++ a :: b2) -> Forall (fun a0 : acv => k < zlen (snd a0)) (b1 ++ a :: b2) ->
+  exists ra, nthz (snd a) k = Some ra /\ zlen ra = fst a /\
+             arow (b1 ++ a :: b2) k = arow b1 k ++ ra ++ arow b2 k /\ zlen (arow b1 k) = body_width b1.
+Proof.
+  intros Hk Fo Fk. apply Forall_app in Fo as [Fo1 Fo2]. apply Forall_app in Fk as [Fk1 Fk2].
+  inversion Fo2 as [|? ? [Ha Hr] Fo3]; subst. inversion Fk2; subst.
+  destruct (nthz_lt_some (snd a) k) as [ra Hra]; [lia|]. exists ra. split; [assumption|].
+  assert (In ra (snd a)) as Hin by (unfold nthz in Hra; destruct (k <? 0); [discriminate|]; eapply nth_error_In; eauto).
+  rewrite Forall_forall in Hr. destruct (Hr _ Hin) as [Hz _]. split; [assumption|]. split.
+  - rewrite arow_app. f_equal. unfold arow at 1. cbn [flat_map]. now rewrite Hra.
+  - now apply arow_width.
+Qed.
+
+Lemma takez_dropz_mid {A} (x y z : list A) n : n = zlen y -> takez n (dropz (zlen x) (x ++ y ++ z)) = y.
+Proof. intros ->. rewrite dropz_app_r by lia. rewrite Z.sub_diag, dropz_le0 by lia. rewrite takez_app_l by lia. apply takez_all. lia. Qed.
+
+(* ------------------------------------------------------------------ placement: a continued cview keeps its column *)
+Lemma slots_after_app n b1 b2 : slots_after n (b1 ++ b2) = slots_after n b1 ++ slots_after n b2.
+Proof. unfold slots_after. apply map_app. Qed.
+
+Lemma placement w : forall ss sl s1 a s2 k,
+  AWF w ss sl -> SWF w sl -> sl = s1 ++ Busy a :: s2 ->
+  0 <= k < zlen (snd a) -> k < ashards_rows ss ->
+  exists R ra, nthz (acontent_from ss sl) k = Some R /\ nthz (snd a) k = Some ra /\
+               takez (fst a) (dropz (slots_width s1) R) = ra.
+Proof.
+  induction ss as [|[n cvs] ss IH]; intros sl s1 a s2 k A S Esl Hk Hrows.
+  - cbn [ashards_rows fold_right] in Hrows. lia.
+  - destruct (AWF_step _ _ _ _ _ A S) as (fb & F & Efr & Ef & Hn & Fo & Fn & Hw & Hr & S').
+    rewrite Esl in F. destruct (Fit_split_slot _ _ _ _ _ F) as (f1 & f2 & Efb & Hbw & _). rewrite Z.add_0_r in Hbw.
+    assert (body_of fb = body_of f1 ++ a :: body_of f2) as Eb by (rewrite Efb, body_of_app; reflexivity).
+    rewrite (acontent_step _ _ _ _ _ Ef). cbn [ashards_rows fold_right fst] in Hrows. fold (ashards_rows ss) in Hrows.
+    destruct (Z_lt_ge_dec k n) as [Hkn|Hkn].
+    + rewrite nthz_app_l by (rewrite zlen_arows; lia). rewrite nthz_arows by lia. rewrite Z.add_0_l.
+      rewrite Eb in Fo, Fn |- *.
+      destruct (band_piece (body_of f1) a (body_of f2) k) as (ra & Hra & Hz & Erow & Hzl); [lia|assumption| |].
+      { eapply Forall_impl; [|exact Fn]. cbn beta. intros; lia. }
+      eexists _, ra. split; [reflexivity|]. split; [assumption|]. rewrite Erow, <- Hbw, <- Hzl. apply takez_dropz_mid. lia.
+    + rewrite nthz_app_r by (rewrite zlen_arows; lia). rewrite zlen_arows.
+      replace (k - Z.of_nat (Z.to_nat n)) with (k - n) by lia.
+      rewrite Eb, slots_after_app. cbn [slots_after map]. fold (slots_after n (body_of f2)).
+      assert (slot_after n a = Busy (pdrop n a)) as Esa by (unfold slot_after, pdrop; destruct (n =? zlen (snd a)) eqn:E; [lia|reflexivity]).
+      rewrite Esa. rewrite Eb in Hr, S'. rewrite slots_after_app in Hr, S'. cbn [slots_after map] in Hr, S'. fold (slots_after n (body_of f2)) in Hr, S'. rewrite Esa in Hr, S'.
+      destruct (IH _ (slots_after n (body_of f1)) (pdrop n a) (slots_after n (body_of f2)) (k - n) Hr S' eq_refl) as (R & ra & E1 & E2 & E3).
+      * cbn [pdrop snd]. rewrite zlen_dropz by lia. lia.
+      * lia.
+      * exists R, ra. split; [assumption|]. split.
+        -- cbn [pdrop snd] in E2. rewrite nthz_dropz in E2 by lia. replace (n + (k - n)) with k in E2 by lia. exact E2.
+        -- cbn [pdrop fst] in E3. rewrite <- E3. do 2 f_equal.
+           assert (Forall acv_ok (body_of f1)) as Fo1 by (rewrite Eb in Fo; apply Forall_app in Fo as [? _]; assumption).
+           destruct (slots_after_width n _ Fo1) as [Esw _]. lia.
+Qed.
+
+(* a fresh cview of an all-fresh shard *)
+Lemma placement_fresh w n c1 a c2 ss k :
+  AWF w ((n, c1 ++ a :: c2) :: ss) [] -> body_width (c1 ++ a :: c2) = w ->
+  0 <= k < zlen (snd a) -> k < n + ashards_rows ss ->
+  exists R ra, nthz (acontent_from ((n, c1 ++ a :: c2) :: ss) []) k = Some R /\ nthz (snd a) k = Some ra /\
+               takez (fst a) (dropz (body_width c1) R) = ra.
+Proof.
+  intros A Hw Hk Hrows. pose proof A as A0. cbn [AWF fill] in A. destruct A as (Hn & Fa & body & [= <-] & Fo & Fn & _ & Hr).
+  cbn [acontent_from fill].
+  destruct (Z_lt_ge_dec k n) as [Hkn|Hkn].
+  - rewrite nthz_app_l by (rewrite zlen_arows; lia). rewrite nthz_arows by lia. rewrite Z.add_0_l.
+    destruct (band_piece c1 a c2 k) as (ra & Hra & Hz & Erow & Hzl); [lia|assumption| |].
+    { eapply Forall_impl; [|exact Fn]. cbn beta. intros; lia. }
+    eexists _, ra. split; [reflexivity|]. split; [assumption|]. rewrite Erow, <- Hzl. apply takez_dropz_mid. lia.
+  - rewrite nthz_app_r by (rewrite zlen_arows; lia). rewrite zlen_arows. replace (k - Z.of_nat (Z.to_nat n)) with (k - n) by lia.
+    pose proof (slots_after_width n _ Fo) as S'. rewrite Hw in S'.
+    rewrite slots_after_app in Hr, S' |- *. cbn [slots_after map] in Hr, S' |- *. fold (slots_after n c2) in Hr, S' |- *.
+    assert (slot_after n a = Busy (pdrop n a)) as Esa by (unfold slot_after, pdrop; destruct (n =? zlen (snd a)) eqn:E; [lia|reflexivity]).
+    rewrite Esa in Hr, S' |- *.
+    destruct (placement w _ _ (slots_after n c1) (pdrop n a) (slots_after n c2) (k - n) Hr S' eq_refl) as (R & ra & E1 & E2 & E3).
+    + cbn [pdrop snd]. rewrite zlen_dropz by lia. lia.
+    + lia.
+    + exists R, ra. split; [assumption|]. split.
+      * cbn [pdrop snd] in E2. rewrite nthz_dropz in E2 by lia. replace (n + (k - n)) with k in E2 by lia. exact E2.
+      * cbn [pdrop fst] in E3. rewrite <- E3. do 2 f_equal.
+        assert (Forall acv_ok c1) as Fo1 by (apply Forall_app in Fo as [? _]; assumption).
+        destruct (slots_after_width n _ Fo1) as [Esw _]. lia.
+Qed.
+
+(* ------------------------------------------------------------------ agreement of the tagged run with the old rows *)
+Definition noskip (a : acv) : Prop := Forall (Forall (fun c : cell => is_skip c = false)) (snd a).
+
+Definition SI (O : grid) (P : Z) (sl : list slot) : Prop :=
+  forall s1 a s2 k ra, sl = s1 ++ Busy a :: s2 -> nthz (snd a) k = Some ra ->
+                       rowagree (getrow O (P + k)) (slots_width s1) ra.
+
+Definition FreshOK (O : grid) (w P : Z) (cvs : list acv) : Prop :=
+  Forall noskip cvs \/
+  (body_width cvs = w /\
+   forall c1 a c2 k ra, cvs = c1 ++ a :: c2 -> nthz (snd a) k = Some ra -> rowagree (getrow O (P + k)) (body_width c1) ra).
+
+Fixpoint ShardsOK (O : grid) (w P : Z) (ss : list ashard) : Prop :=
+  match ss with
+  | [] => True
+  | (n, cvs) :: ss' => FreshOK O w P cvs /\ ShardsOK O w (P + n) ss'
+  end.
+
+Lemma map_eq_app_cons {A B} (f : A -> B) l : forall l1 y l2,
+  map f l = l1 ++ y :: l2 -> exists a1 x a2, l = a1 ++ x :: a2 /\ map f a1 = l1 /\ f x = y /\ map f a2 = l2.
+Proof.
+  induction l as [|x l IH]; intros l1 y l2 E; [destruct l1; discriminate|]. destruct l1 as [|z l1]; cbn [map app] in E.
+  - injection E as E1 E2. exists [], x, l. auto.
+  - injection E as E1 E2. destruct (IH _ _ _ E2) as (a1 & x0 & a2 & -> & <- & <- & <-). exists (x :: a1), x0, a2. cbn [map app]. rewrite E1. auto.
+Qed.
+
+Lemma arow_agree Rw k : forall body x,
+  0 <= x -> 0 <= k -> Forall acv_ok body -> Forall (fun a : acv => k < zlen (snd a)) body ->
+  (forall b1 a b2 ra, body = b1 ++ a :: b2 -> nthz (snd a) k = Some ra -> rowagree Rw (x + body_width b1) ra) ->
+  rowagree Rw x (arow body k).
+Proof.
+  induction body as [|a body IH]; intros x Hx Hk Fo Fk H; [apply rowagree_nil|].
+  inversion Fo as [|? ? [Ha Hr] Fo']; subst. inversion Fk; subst.
+  destruct (nthz_lt_some (snd a) k) as [ra Hra]; [lia|].
+  assert (In ra (snd a)) as Hin by (unfold nthz in Hra; destruct (k <? 0); [discriminate|]; eapply nth_error_In; eauto).
+  rewrite Forall_forall in Hr. destruct (Hr _ Hin) as [Hz _].
+  unfold arow. cbn [flat_map]. rewrite Hra. fold (arow body k). apply rowagree_app; [assumption| |].
+  - specialize (H [] a body ra eq_refl Hra). cbn [body_width fold_right] in H. now rewrite Z.add_0_r in H.
+  - rewrite Hz. apply IH; [lia|assumption|assumption|assumption|]. intros b1 a0 b2 ra0 E N.
+    specialize (H (a :: b1) a0 b2 ra0). cbn [app body_width fold_right] in H. fold (body_width b1) in H.
+    replace (x + fst a + body_width b1) with (x + (fst a + body_width b1)) by lia. apply H; [now rewrite E|assumption].
+Qed.
+
+Lemma run_agree O w : forall ss sl P,
+  AWF w ss sl -> SWF w sl -> SI O P sl -> ShardsOK O w P ss ->
+  forall k R, nthz (acontent_from ss sl) k = Some R -> rowagree (getrow O (P + k)) 0 R.
+Proof.
+  induction ss as [|[n cvs] ss IH]; intros sl P A S Hsi Hsh k R Hk.
+  - cbn [acontent_from] in Hk. unfold nthz in Hk. destruct (k <? 0); [discriminate|]. destruct (Z.to_nat k); discriminate.
+  - destruct (AWF_step _ _ _ _ _ A S) as (fb & F & Efr & Ef & Hn & Fo & Fn & Hw & Hr & S').
+    destruct Hsh as [Hfresh Hsh'].
+    (* every entry of the body agrees at its column *)
+    assert (forall b1 a b2 j ra, body_of fb = b1 ++ a :: b2 -> nthz (snd a) j = Some ra ->
+                                 rowagree (getrow O (P + j)) (body_width b1) ra) as BI.
+    { intros b1 a b2 j ra Eb Hra. unfold body_of in Eb. destruct (map_eq_app_cons _ _ _ _ _ Eb) as (f1 & [fl a0] & f2 & Efb & E1 & E2 & E3).
+      cbn [snd] in E2. subst a0. fold (body_of f1) in E1. destruct fl.
+      - (* fresh *)
+        destruct Hfresh as [Hno|[Hbw Hall]].
+        + apply rowagree_noskip. assert (In a cvs) as Hin.
+          { rewrite <- Efr, Efb, fresh_of_app. apply in_or_app. right. left. reflexivity. }
+          rewrite Forall_forall in Hno. specialize (Hno _ Hin). unfold noskip in Hno. rewrite Forall_forall in Hno. apply Hno.
+          unfold nthz in Hra. destruct (j <? 0); [discriminate|]. eapply nth_error_In; eauto.
+        + assert (fb = mk_fresh cvs) as Efb2.
+          { rewrite <- Efr. apply (Fit_all_fresh _ _ _ F); [eapply Forall_impl; [|exact Fo]; intros x [? _]; assumption|]. rewrite Efr. lia. }
+          assert (body_of fb = cvs) as Ebc by (rewrite Efb2; apply body_of_mk_fresh).
+          rewrite <- E1. apply (Hall (body_of f1) a (body_of f2) j ra); [|assumption].
+          rewrite <- Ebc, Efb, body_of_app. reflexivity.
+      - (* continued *)
+        rewrite Efb in F. destruct (Fit_split_body _ _ _ _ _ F) as (s1 & s2 & Esl & Hsw). rewrite Z.add_0_r in Hsw.
+        rewrite <- E1, <- Hsw. eapply Hsi; eauto. }
+    rewrite (acontent_step _ _ _ _ _ Ef) in Hk.
+    destruct (Z_lt_ge_dec k 0) as [Hneg|Hnn]; [unfold nthz in Hk; destruct (k <? 0) eqn:E; [discriminate|lia]|].
+    destruct (Z_lt_ge_dec k n) as [Hkn|Hkn].
+    + rewrite nthz_app_l in Hk by (rewrite zlen_arows; lia). rewrite nthz_arows in Hk by lia. rewrite Z.add_0_l in Hk. injection Hk as <-.
+      apply arow_agree; try assumption; try lia.
+      * eapply Forall_impl; [|exact Fn]. cbn beta. intros; lia.
+      * intros b1 a b2 ra Eb Hra. rewrite Z.add_0_l. eapply BI; eauto.
+    + rewrite nthz_app_r in Hk by (rewrite zlen_arows; lia). rewrite zlen_arows in Hk.
+      replace (k - Z.of_nat (Z.to_nat n)) with (k - n) in Hk by lia.
+      replace (P + k) with (P + n + (k - n)) by lia. eapply (IH _ (P + n) Hr S'); [|exact Hsh'|exact Hk].
+      (* the slot invariant after the band *)
+      intros s1 a' s2 j ra Esl Hra. unfold slots_after in Esl. destruct (map_eq_app_cons _ _ _ _ _ Esl) as (b1 & a & b2 & Eb & E1 & E2 & E3).
+      unfold slot_after in E2. destruct (n =? zlen (snd a)) eqn:E; [discriminate|]. injection E2 as <-.
+      cbn [snd] in Hra.
+      destruct (Z_lt_ge_dec j 0) as [Hjn|Hjn]; [unfold nthz in Hra; destruct (j <? 0) eqn:E4; [discriminate|lia]|].
+      rewrite nthz_dropz in Hra by lia.
+      assert (Forall acv_ok b1) as Fo1 by (rewrite Eb in Fo; apply Forall_app in Fo as [? _]; assumption).
+      destruct (slots_after_width n _ Fo1) as [Esw _]. unfold slots_after in Esw. rewrite E1 in Esw. rewrite Esw.
+      replace (P + n + j) with (P + (n + j)) by lia. eapply BI; eauto.
 Qed.
